@@ -1,4 +1,4 @@
-import ESV.Comp.CgMain
+import ESV.Comp.CgFrag
 /-
 `codegen_correct`, switches: what the collected code of a statement looks like at its ends (no recursion needed: every
 handler ends in one `pure`), so that a case body which is not a single `break` / `continue` / `break_loop` is never a lone
@@ -43,17 +43,6 @@ theorem loneJump_append_ne {a b : List LItem} (ha : a ≠ []) (hb : b ≠ []) : 
       cases xs with
       | nil => exact loneJump_two _ _ _
       | cons z zs => exact loneJump_two _ _ _
-
-def isExit : Stmt → Bool
-  | .brk => true
-  | .cont => true
-  | .brkLoop => true
-  | _ => false
-
-/-- a body that is a single `break` / `continue` / `break_loop` -/
-def loneExit : Stmts → Bool
-  | .cons s .nil => isExit s
-  | _ => false
 
 abbrev EndsP (st : Stmt) (r : List LItem) : Prop := r ≠ [] ∧ (isExit st = false → loneJump r = none)
 
